@@ -67,6 +67,13 @@ class NRun7(aflat.Run7):
             kids = [self.node_def(c) for c in s['children']]
             if s['parallel']:
                 nd['parallel'] = kids
+            elif i in getattr(self.d, 'embed', ()):
+                # the children (and the transitions declared in this state's scope) arrive as ANOTHER MACHINE instance
+                # embedded as children: its Event objects are adopted by the embedding machine
+                nd.pop('transitions', None)
+                nd['children'] = self.cls(model=None, states=kids, transitions=local, initial=seg(s['init_child']),
+                                          auto_transitions=False, send_event=self.d.send_event)
+                nd['initial'] = seg(s['init_child'])
             else:
                 nd['children'] = kids
                 nd['initial'] = seg(s['init_child'])
